@@ -130,6 +130,7 @@ func init() {
 		}
 		return nil, actDone
 	})
+	reg(vrt+"Thorough", func(r *Run, g *G, a []Value) (Value, action) { return r.eng.opts.Tier == "thorough", actDone })
 	reg(vrt+"SyncPoint", func(r *Run, g *G, a []Value) (Value, action) { return nil, actSync })
 	reg(vrt+"RunHarness", func(r *Run, g *G, a []Value) (Value, action) {
 		engineFail("RunHarness is native-only")
